@@ -199,7 +199,10 @@ def _p256_points():
     p, gx, gy = _P.p, _P.g_x, _P.g_y
     g2 = _P.generate_public_key(2)
     g7 = _P.generate_public_key(0xDEADBEEFCAFE)
-    return [('G', gx, gy, True), ('-G', gx, p - gy, True), ('2G', g2.x, g2.y, True), ('kG', g7.x, g7.y, True),
+    # a valid point whose x is small enough for x + p to fit 32 bytes: (x + p, y) is the same residue, but not a field element
+    xs = next(x for x in range(1, 200) if pow((x ** 3 + _P.a * x + _P.b) % p, (p - 1) // 2, p) == 1)
+    ys = pow((xs ** 3 + _P.a * xs + _P.b) % p, (p + 1) // 4, p)
+    return [('small-x', xs, ys, True), ('small-x + p', xs + p, ys, False),('G', gx, gy, True), ('-G', gx, p - gy, True), ('2G', g2.x, g2.y, True), ('kG', g7.x, g7.y, True),
             ('zero', 0, 0, False), ('one', 1, 1, False), ('Gx,Gy+1', gx, gy + 1, False), ('Gx+1,Gy', gx + 1, gy, False), ('Gx,0', gx, 0, False),
             ('Gy,Gx', gy, gx, False), ('Gx,Gy+p', gx, (gy + p) % (1 << 256), False), ('x=p', p, gy, False), ('max', (1 << 256) - 1, (1 << 256) - 1, False),
             ('Gx,Gy^1', gx, gy ^ 1, False), ('Gx,Gy^msb', gx, gy ^ (1 << 255), False)]
@@ -208,13 +211,13 @@ def _p256_points():
 _PTS = None
 
 
-@harness(pre=['0 <= i <= 14 and 0 <= d <= 4'], family='point-validation', twin=True, kernels=K, timeout=(100, 300),
+@harness(pre=['0 <= i <= 16 and 0 <= d <= 4'], family='point-validation', twin=True, kernels=K, timeout=(100, 300),
          canaries=[('ecdh-without-point-validation', _canary_no_validation)],
-         bounds='P-256, both back ends: 15 representative peer coordinate pairs (4 valid, 11 invalid incl. out-of-range, swapped, one-bit-off, y+p) x 5 private scalars (1, 2, n-1, two mid-range): invalid pairs raise in both, valid pairs give identical secrets in both, used twice on the same key object')
+         bounds='P-256, both back ends: 17 representative peer coordinate pairs (5 valid, 12 invalid incl. out-of-range, non-canonical x + p of a valid point, swapped, one-bit-off, y+p) x 5 private scalars (1, 2, n-1, two mid-range): invalid pairs raise in both, valid pairs give identical secrets in both, used twice on the same key object')
 def p256_point_validation_both_backends(i: int, d: int) -> bool:
     global _PTS
     from bumble.crypto import cryptography as lib
-    i, d = C(i, 0, 14), C(d, 0, 4)
+    i, d = C(i, 0, 16), C(d, 0, 4)
     with untraced():
         if _PTS is None:
             _PTS = _p256_points()
